@@ -1792,13 +1792,14 @@ def _lincomb_impl(a, x1, b, x2, out):
 
     size = native(x1.size)
 
+    if a == 0 and b == 0:
+        # Exact zero for every size and aliasing pattern (0 * nan would be nan)
+        out.data[:] = 0
+        return
+
     if size < THRESHOLD_SMALL:
         # Faster for small arrays
-        if a == 0 and b == 0:
-            # Exact zero as in the other size regimes (0 * nan would be nan)
-            out.data[:] = 0
-        else:
-            out.data[:] = a * x1.data + b * x2.data
+        out.data[:] = a * x1.data + b * x2.data
         return
 
     elif (size < THRESHOLD_MEDIUM or
